@@ -14,6 +14,7 @@ prepared (never copied) state before it is reported.
 
 from __future__ import annotations
 
+import os
 import random
 import signal
 import time
@@ -135,6 +136,10 @@ def plan(tier, seed):
     # hostile-certificate handshakes (genuine server with a hostile certificate, client victim)
     for i in range(0, len(CERT_KINDS), 7):
         batches.append({"gen": "certs", "certs": CERT_KINDS[i: i + 7], "seed": seed * 1000003 + 900000 + i})
+    # consistent server flights with hostile CertificateRequest messages against clients with / without a certificate
+    for suite in ROGUE_SUITES:
+        for ck in ROGUE_CLIENT_CERTS:
+            batches.append({"gen": "rogue", "suites": [suite], "client_certs": [ck], "seed": seed * 1000003 + 950000})
     rnd.shuffle(batches)
     return batches
 
@@ -526,6 +531,119 @@ def run_certs(batch, res, lib, gen):
     res.nontrivial.add("client|handshake|certs|%s|%s" % (kind, outcome))
 
 
+# ----------------------------------------------------------------------------- consistent hostile flights (rogue server)
+
+ROGUE_SUITES = (0x1301, 0x1302, 0x1303)
+ROGUE_CLIENT_CERTS = ("none", "ec", "rsa")
+
+
+def rogue_cr_variants():
+    """(label, CertificateRequest body) — what a key-holding server may legally or illegally ask for."""
+    from .. import c11_adversary as A
+
+    def cr(algs=None, ctx=b"", extra=b"", raw_algs=None, twice=False):
+        exts = b""
+        if algs is not None or raw_algs is not None:
+            body = raw_algs if raw_algs is not None else A.vec(2, b"".join(a.to_bytes(2, "big") for a in algs))
+            exts += A.ext(13, body)
+            if twice:
+                exts += A.ext(13, body)
+        return A.vec(1, ctx) + A.vec(2, exts + extra)
+
+    return [
+        ("usual", cr([0x0403, 0x0804, 0x0401, 0x0807])),
+        ("only-ed448", cr([0x0808])), ("only-ed25519", cr([0x0807])), ("only-ecdsa-p384", cr([0x0503])), ("only-ecdsa-p521", cr([0x0603])),
+        ("only-rsa-pkcs1-sha1", cr([0x0201])), ("only-rsa-pss-pss", cr([0x0809])), ("only-unknown", cr([0xFFFF])), ("only-grease", cr([0x0A0A, 0x1A1A])),
+        ("only-ecdsa-p256", cr([0x0403])), ("only-rsa-pss-sha256", cr([0x0804])), ("only-rsa-pkcs1-sha256", cr([0x0401])),
+        ("empty-list", cr([])), ("no-signature-algorithms", cr(None)), ("odd-length-list", cr(raw_algs=A.vec(2, b"\x08\x04\x08"))),
+        ("list-length-overruns", cr(raw_algs=b"\x00\x08\x08\x04")), ("signature-algorithms-twice", cr([0x0403, 0x0804], twice=True)),
+        ("context-255", cr([0x0403, 0x0804], ctx=bytes(255))), ("context-1", cr([0x0808], ctx=b"\x07")),
+        ("with-certificate-authorities", cr([0x0808], extra=A.ext(47, A.vec(2, A.vec(2, b"\x30\x00"))))),
+        ("with-unknown-extension", cr([0x0503], extra=A.ext(0xFACE, b"\x00" * 40))),
+        ("many-algorithms", cr([0x0900 + i for i in range(300)])),
+    ]
+
+
+def run_rogue(batch, res):
+    """A server that holds the authentic key and keeps the transcript consistent (own RFC 8446 key schedule, Finished
+    and CertificateVerify recomputed over what it really sent: vf.c11_adversary) sends a flight with a hostile but
+    well-protected CertificateRequest to TLS client victims with and without a client certificate.  Whatever the
+    victim does — answer, or refuse with an alert — no exception other than tls.Alert may leave handle_message
+    (QuicConnection only converts tls.Alert into a close; anything else escapes receive_datagram)."""
+    from aioquic import tls
+    from aioquic.buffer import Buffer
+
+    from .. import c11_adversary as A
+
+    ca = os.path.join(A.CERTS, "pycacert.pem")
+    variants = rogue_cr_variants()
+    for suite in batch["suites"]:
+        for ckind in batch["client_certs"]:
+            for label, body in variants:
+                for after in ("EE", "CERT-position-swapped"):
+                    v = tls.Context(is_client=True, cafile=ca, server_name="localhost", alpn_protocols=["vf"], cipher_suites=[tls.CipherSuite(suite)])
+                    v.handshake_extensions = [(0x39, b"\x01\x02\x03\x04")]
+                    if ckind == "ec":
+                        _chain, key, certs = A.own_identity("client.c05")
+                        v.certificate, v.certificate_private_key = certs[0], key
+                    elif ckind == "rsa":
+                        _chain, key, certs = A.authentic()
+                        v.certificate, v.certificate_private_key = certs[0], key
+                    adv = A.RogueServer("auth", suite, A.G_X25519, alpn=b"vf")
+                    case = {"gen": "rogue", "suites": [suite], "client_certs": [ckind], "only": label, "position": after}
+                    if batch.get("only") and (batch["only"] != label or batch.get("position", after) != after):
+                        continue
+                    steps = []
+                    outcome = "?"
+                    exc = None
+                    where = None
+
+                    def feed(name, data):
+                        nonlocal exc, where
+                        bufs = {tls.Epoch.INITIAL: Buffer(capacity=16384), tls.Epoch.HANDSHAKE: Buffer(capacity=65536), tls.Epoch.ONE_RTT: Buffer(capacity=16384)}
+                        try:
+                            v.handle_message(data, bufs)
+                        except Exception as e:
+                            exc, where = e, name
+                            return None
+                        res.count("api_calls")
+                        return bufs
+
+                    b = feed("start", b"")
+                    if b is None:
+                        raise RuntimeError("harness: client victim did not start: %r" % (exc,))
+                    adv.recv_client_hello(bytes(b[tls.Epoch.INITIAL].data))
+                    flight = [("SH", adv.server_hello), ("EE", adv.encrypted_extensions)]
+                    cr_step = ("CR", lambda: adv.emit(A.hs_msg(A.CR, body)))
+                    if after == "EE":
+                        flight += [cr_step, ("CERT", adv.certificate), ("CV", adv.certificate_verify), ("FIN", adv.finished)]
+                    else:
+                        # (illegal position: after the Certificate — must be refused with an alert, too)
+                        flight += [("CERT", adv.certificate), cr_step, ("CV", adv.certificate_verify), ("FIN", adv.finished)]
+                    for name, make in flight:
+                        if feed(name, make()) is None:
+                            break
+                        steps.append(name)
+                    res.evaluations += 1
+                    res.count("cases")
+                    res.count("cases_rogue")
+                    if exc is None:
+                        outcome = "answered:" + v.state.name
+                    elif isinstance(exc, tls.Alert):
+                        outcome = "alert:%s@%s" % (type(exc).__name__, where)
+                    else:
+                        outcome = "raised"
+                        sig = signature(exc) + ":rogue-flight"
+                        w = exc_witness(exc)
+                        w["delivered"] = steps + [where]
+                        res.violation(sig, "client victim (certificate: %s, suite 0x%04x), consistent server flight with CertificateRequest %r after %s: handle_message(%s) raised %r"
+                                      % (ckind, suite, label, after, where, exc), case, w)
+                    res.count("k|rogue|%s|%s" % (label, outcome.split("@")[0]))
+                    res.nontrivial.add("rogue|%s|%s|%s|%s" % (ckind, label, after, outcome))
+                    if label == "usual" and after == "EE" and not outcome.startswith("answered:CLIENT_POST_HANDSHAKE"):
+                        res.inconclusive.append("rogue: the usual CertificateRequest did not lead to completion (%s): the adversary is not consistent" % outcome)
+
+
 def run_batch(batch):
     import logging
 
@@ -551,6 +669,9 @@ def run_batch(batch):
             res.count("cpu_s_" + batch["fam"], round(time.process_time() - t0, 2))
         elif batch["gen"] == "replay":
             run_replay(batch, res, lib, gen)
+        elif batch["gen"] == "rogue":
+            run_rogue(batch, res)
+            res.count("cpu_s_rogue", round(time.process_time() - t0, 2))
         elif batch["gen"] == "certs":
             for kind in batch.get("certs") or [batch["cert"]]:
                 run_certs(dict(batch, cert=kind, certs=None), res, lib, gen)
